@@ -20,7 +20,7 @@ CHECKS = {
          "Every message of honest runs plus 30-60 mutants each is offered to its decoder (round trip, canonical form, reuse after another value) and to the other types' decoders and the generic batch decoder (must reject).",
          TRUST, "DESIGN.md §4 C04"),
  "C05": ("exploration", "deterministic simulation of generic batch issuance with per-slot failure injection over all short compositions and issuer configurations; per-request standalone evaluation as reference model",
-         "All compositions of length <= 2 (quick) / <= 3 (thorough) over {type1,type2} x {known key, unknown key id, malformed element} under four issuer configurations, sampled longer ones; each entry must agree with the per-slot model and finalize to a valid token.",
+         "All compositions of length <= 3 (quick) / <= 4 (thorough) over {type1,type2} x {known key, unknown key id, malformed element} under four issuer configurations, sampled longer ones; each entry must agree with the per-slot model and finalize to a valid token.",
          TRUST, "DESIGN.md §4 C05"),
  "C06": ("fault_enumeration", "deterministic simulation with a byzantine client on the client->attester hop: every single-bit flip of a request, wrong blinds / client keys, swapped side information, re-signed requests; stdlib ECDSA + independent key-blinding reference; recording cache",
          "accept <=> (crypto/ecdsa verifies the signature over the exact contents under the request key) and (request key = reference-blind(client key, blind)); rejected requests must not touch the cache.",
